@@ -58,6 +58,14 @@ def check_split_case(case):
                 got = (1, c1.start, c1.end, rows_of(c1), c2.start, c2.end, rows_of(c2))
                 if good and n != ni:
                     drift += 1
+                # the annotation law of splitting (Chunks.tla, SplitRuns): each fragment records its run over exactly its own range -
+                # cut where the data was cut, also when an early split moved the cut
+                if good:
+                    for f in (c1, c2):
+                        if f.end > f.start and f.superrun != {f.run_id: {"start": f.start, "end": f.end}}:
+                            bad.append((f"split-annotation:{json.dumps(c, sort_keys=True)}:t={t}:early={int(early)}",
+                                        f"Chunk.split(t={t}, allow_early_split={early}) of {c}: the fragment [{f.start}, {f.end}) records the run "
+                                        f"span {f.superrun}"))
             except strax.CannotSplit:
                 good = ok == 0
                 got = "CannotSplit"
